@@ -1,11 +1,11 @@
 package t0146
 
 type G1 struct {
-	F0x0 int32
+	F2x0 *float32
 }
 
 type T struct {
-	F0 *G1
+	F0 int32
 	F1 int64
-	F2 float32
+	F2 G1
 }
